@@ -77,6 +77,13 @@ def gen_case(g):
         divisor = small_poly(g, vshape, names, kind, nterms=rng.choice([1, 2, 2, 3]), maxexp=2)
         cof = small_poly(g, dshape, names, kind, nterms=rng.choice([1, 2, 3]), maxexp=2)
         prod = M.m_mul(G.model(cof), G.model(divisor))
+        if kind == "float" and rng.random() < 0.3:
+            # a cofactor of tiny magnitude (a power of two: everything stays exact): quotient
+            # terms far below machine epsilon are terms, not rounding noise
+            case["scale_pow"] = rng.choice([-60, -80, -40])  # (the documented absolute cutoff is 1e-30)
+            factor = 2.0 ** case["scale_pow"]
+            cof["coefs"] = [G.nested_map(lambda v: v * factor, c) for c in cof["coefs"]]
+        prod = M.m_mul(G.model(cof), G.model(divisor))
         dividend = G.spec_from_model(prod, kind=kind, names=names)
         case["cofactor"] = cof
     elif cls == "multitop":
@@ -125,6 +132,8 @@ def gen_case(g):
                 spec["coefs"] = [G.nested_map(lambda v: abs(v) if not isinstance(v, dict) else v, c)
                                  for c in spec["coefs"]]
         case["dtype"] = dtype
+    if rng.random() < 0.12:
+        case["strict_fp"] = True
     case.update({"dividend": dividend, "divisor": divisor, "spelling": spelling})
     return case
 
@@ -141,9 +150,16 @@ def divisor_features(dmodel, names):
     return multi
 
 
-def execute(spelling, a, b):
+def execute(spelling, a, b, strict_fp=False):
     import numpoly
 
+    if strict_fp:
+        # floating-point faults and warnings promoted to errors (a common test configuration):
+        # a division that is well defined does not trip over entries that take no part in it
+        import warnings
+        with numpy.errstate(all="raise"), warnings.catch_warnings():
+            warnings.simplefilter("error")
+            return execute(spelling, a, b)
     if spelling == "poly_divmod":
         return numpoly.poly_divmod(a, b)
     if spelling == "divmod":
@@ -153,8 +169,8 @@ def execute(spelling, a, b):
     return numpoly.poly_divide(a, b), numpoly.poly_remainder(a, b)
 
 
-def scale_of(*arrs):
-    out = 1.0
+def scale_of(*arrs, floor=1.0):
+    out = floor
     for arr in arrs:
         for elem in M.wrap(arr).ravel().tolist():
             out = max(out, elem.max_abs())
@@ -192,7 +208,7 @@ def run_case(case, ctx, monitor):
     monitor.reset()
     before = monitor.total_backedges
     try:
-        q, r = execute(case["spelling"], a, b)
+        q, r = execute(case["spelling"], a, b, bool(case.get("strict_fp")))
     except NonTermination as err:
         facts["failure"] = "nontermination:" + err.kind
         ctx.count("loop_backedges", monitor.total_backedges - before)
@@ -218,9 +234,9 @@ def run_case(case, ctx, monitor):
     ab = numpy.broadcast_to(am, shape)
     bb = numpy.broadcast_to(bm, shape)
     recomposed = M.m_add(M.m_mul(qm, bb), rm)
-    scale = scale_of(ab, M.m_mul(qm, bb), rm)
+    floor = 2.0 ** case.get("scale_pow", 0)
+    scale = scale_of(ab, M.m_mul(qm, bb), rm, floor=floor)
     residual = M.m_sub(ab, recomposed)
-    worst = scale_of(residual) if any(e for e in residual.ravel().tolist()) else 0.0
     if any(e for e in residual.ravel().tolist()) and max(
             e.max_abs() for e in residual.ravel().tolist()) > 1e-9 * scale:
         facts["failure"] = "identity"
